@@ -54,6 +54,10 @@ class Feed:
         specs.append({'kind': 'ident', 'icao': self.icao['E2'], 'callsign': 'E2'})      # repeats: counts differ per row
         specs.append({'kind': 'ident', 'icao': self.icao['E2'], 'callsign': 'E2'})
         specs.append({'kind': 'df11', 'icao': self.icao['W1']})                           # non-ES: must not count
+        # never positioned, sorting AFTER positioned aircraft (a stale-cell bug needs a positioned row before it)
+        specs.append({'kind': 'ident', 'icao': 'c00150', 'callsign': 'NOPOS2'})
+        specs.append({'kind': 'ident', 'icao': 'cffff0', 'callsign': 'NOPOS3'})
+        specs.append({'kind': 'vel', 'icao': 'cffff0', 'east': 10, 'north': 10, 'vrate': 64})
         ls = e4lib.mkfeed(specs)
         self.lines = [(x + '\n').encode() for x in ls]
         self.bytes = b''.join(self.lines)
@@ -63,6 +67,15 @@ class Feed:
         self.part2 = b''.join(self.lines[6:15])      # S1, S2, E1
         self.t1 = e4lib.feed2table(self.part1)
         self.t2 = e4lib.feed2table(self.part2)
+        # traffic that arrives AFTER the view controls were used: its data must not depend on the view
+        late = [{'kind': 'ident', 'icao': 'c00200', 'callsign': 'LATE'},
+                {'kind': 'pos', 'icao': 'c00200', 'lat': LAT0 + 1.5 * D, 'lon': LON0 - 1.5 * D, 'alt': 21000, 'odd': 0},
+                {'kind': 'pos', 'icao': 'c00200', 'lat': LAT0 + 1.5 * D, 'lon': LON0 - 1.5 * D, 'alt': 21000, 'odd': 1},
+                {'kind': 'pos', 'icao': self.icao['S1'], 'lat': LAT0 + GEOM['S1'][0] * D - 0.01, 'lon': LON0 + GEOM['S1'][1] * D, 'alt': 11000, 'odd': 0},
+                {'kind': 'pos', 'icao': self.icao['S1'], 'lat': LAT0 + GEOM['S1'][0] * D - 0.01, 'lon': LON0 + GEOM['S1'][1] * D, 'alt': 11000, 'odd': 1}]
+        self.late_lines = [(x + '\n').encode() for x in e4lib.mkfeed(late)]
+        self.late_bytes = b''.join(self.late_lines)
+        self.table_late = e4lib.feed2table(self.bytes + self.late_bytes)
         self.locations = ['(%s,%s,%s)' % (n.lower(), round(LAT0 + GEOM[n][0] * D, 4), round(LON0 + GEOM[n][1] * D, 4))
                           for n in ORDER] + ['(rx,%s,%s)' % (LAT0, LON0)]
 
@@ -84,10 +97,13 @@ def compile_script(fd, kind, cfg, seq, delivery, alphabet, filler=True, touchscr
         argv.append('--touchscreen')
     steps = []
     expect = None
-    if kind == 'aircraft':
+    expect_after = None
+    if kind in ('aircraft', 'aircraft-late'):
         steps.append({'op': 'lines', 'hex': hexs(fd.bytes), 'n': len(fd.lines)})
         expect = expect_of(fd.table)
         labels = ORDER
+        if kind == 'aircraft-late':
+            expect_after = expect_of(fd.table_late)
     elif kind == 'locations':
         argv += ['--locations'] + fd.locations
         steps.append({'op': 'sync', 'n': 2})
@@ -119,8 +135,10 @@ def compile_script(fd, kind, cfg, seq, delivery, alphabet, filler=True, touchscr
         else:
             for a in seq:
                 steps += [key_step(alphabet[a], [a]), s3]
-        steps += [{'op': 'snap', 'name': 'map1'},
-                  key_step(KEYS['F3'], ['F3']), s3, {'op': 'snap', 'name': 'air1'},
+        steps += [{'op': 'snap', 'name': 'map1'}]
+        if kind == 'aircraft-late':
+            steps += [{'op': 'lines', 'hex': hexs(fd.late_bytes), 'n': len(fd.late_lines)}]
+        steps += [key_step(KEYS['F3'], ['F3']), s3, {'op': 'snap', 'name': 'air1'},
                   key_step(KEYS['F1'], ['F1']), s3,
                   key_step(KEYS['Enter'], ['Enter']), s3, {'op': 'snap', 'name': 'map2'}]
     steps.append({'op': 'quit', 'hex': '71', 'letters': ['q']})
@@ -128,7 +146,7 @@ def compile_script(fd, kind, cfg, seq, delivery, alphabet, filler=True, touchscr
                                                             'filler' if filler else 'nofiller', delivery,
                                                             ','.join(seq) or 'none')
     return {'binary': 'radar', 'oracle': 'c18', 'key': key, 'argv': argv, 'size': [cols, rows], 'filler': filler,
-            'steps': steps, 'kind': kind, 'labels': labels, 'expect': expect, 'events': list(seq), 'touchscreen': touchscreen,
+            'steps': steps, 'kind': kind, 'labels': labels, 'expect': expect, 'expect_after': expect_after, 'events': list(seq), 'touchscreen': touchscreen,
             'geom': {n: list(GEOM[n]) for n in ORDER},
             'expected': 'Airplanes tab == vh feed2table cells; Stats totals == added/max; map: north above, east right, 2d twice '
                         'as far as d; view controls leave the Airplanes tab unchanged; Enter restores the initial map'}
@@ -166,6 +184,30 @@ def check_order(labels_pos, strict_gap, probs, tag):
             probs.append('%s:same-lon-cols-differ(%s,%s)' % (tag, a, b))
 
 
+def compare_table(tag, snap, exp, probs, facts):
+    t = e4screen.parse_airplanes(snap['lines'])
+    tab_n = e4screen.tab_title_count(snap['lines'])
+    if t is None:
+        probs.append('%s:no-table' % tag)
+        return
+    facts['rows_' + tag] = len(t['rows'])
+    if tab_n != exp['n'] or t['title_n'] != exp['n']:
+        probs.append('%s:title=%s/%s want %s' % (tag, tab_n, t['title_n'], exp['n']))
+    # the table shows as many rows as fit: terminal height minus margin (2), tab bar (3), borders (2), header + spacer (2)
+    capacity = max(0, snap.get('size', [0, 24])[1] - 9)
+    want_rows = min(len(exp['rows']), capacity)
+    if len(t['rows']) != want_rows:
+        probs.append('%s:rows=%d want %d' % (tag, len(t['rows']), want_rows))
+    for got, want in zip(t['rows'], exp['rows']):
+        for f in e4screen.FIELDS:
+            w = t['col'][f][1]
+            wv = want[f]
+            if len(wv) > w:
+                wv = wv[:w].strip()     # cell wider than its column: the column-width prefix
+            if got[f] != wv:
+                probs.append('%s:cell %s.%s=%r want %r' % (tag, want['icao'], f, got[f], wv))
+
+
 def judge(script, obs):
     probs = []
     snaps = obs.get('snaps', {})
@@ -185,27 +227,19 @@ def judge(script, obs):
     # 1. Airplanes tab == library
     air0 = snaps.get('air0')
     if air0:
-        t = e4screen.parse_airplanes(air0['lines'])
-        tab_n = e4screen.tab_title_count(air0['lines'])
-        if t is None:
-            probs.append('air0:no-table')
+        if exp.get('rows') is not None:
+            compare_table('air0', air0, exp, probs, facts)
+            facts['rows'] = facts.get('rows_air0')
         else:
-            facts['rows'] = len(t['rows'])
-            if tab_n != exp['n'] or t['title_n'] != exp['n']:
-                probs.append('air0:title=%s/%s want %s' % (tab_n, t['title_n'], exp['n']))
-            if exp.get('rows') is not None:
-                if len(t['rows']) != len(exp['rows']):
-                    probs.append('air0:rows=%d want %d' % (len(t['rows']), len(exp['rows'])))
-                for got, want in zip(t['rows'], exp['rows']):
-                    for f in e4screen.FIELDS:
-                        w = t['col'][f][1]
-                        wv = want[f]
-                        if len(wv) > w:
-                            wv = wv[:w].strip()     # cell wider than its column: the column-width prefix
-                        if got[f] != wv:
-                            probs.append('air0:cell %s.%s=%r want %r' % (want['icao'], f, got[f], wv))
-            elif exp.get('icaos') is not None:
-                if [r['icao'] for r in t['rows']] != exp['icaos']:
+            t = e4screen.parse_airplanes(air0['lines'])
+            tab_n = e4screen.tab_title_count(air0['lines'])
+            if t is None:
+                probs.append('air0:no-table')
+            else:
+                facts['rows'] = len(t['rows'])
+                if tab_n != exp['n'] or t['title_n'] != exp['n']:
+                    probs.append('air0:title=%s/%s want %s' % (tab_n, t['title_n'], exp['n']))
+                if exp.get('icaos') is not None and [r['icao'] for r in t['rows']] != exp['icaos']:
                     probs.append('air0:icaos=%s want %s' % ([r['icao'] for r in t['rows']], exp['icaos']))
     # 2. Stats
     st0 = snaps.get('stats0')
@@ -291,7 +325,11 @@ def judge(script, obs):
                 facts['labels_after_view'] = len(pos1)
                 check_order(pos1, False, probs, 'map1')
         air1 = snaps.get('air1')
-        if air0 and air1:
+        if script.get('expect_after') is not None:
+            # traffic arrived after the view controls: the table must equal the library fed with everything
+            if air1:
+                compare_table('air1', air1, script['expect_after'], probs, facts)
+        elif air0 and air1:
             r0, r1 = table_region(air0['lines']), table_region(air1['lines'])
             if r0 is None or r1 is None:
                 probs.append('air1:no-table')
@@ -301,7 +339,7 @@ def judge(script, obs):
             if e4screen.tab_title_count(air1['lines']) != e4screen.tab_title_count(air0['lines']):
                 probs.append('air1:title-changed')
         m2 = snaps.get('map2')
-        if m0 and m2 and m0['lines'] != m2['lines']:
+        if script.get('expect_after') is None and m0 and m2 and m0['lines'] != m2['lines']:
             diff = [i for i, (a, b) in enumerate(zip(m0['lines'], m2['lines'])) if a != b]
             probs.append('map2:reset-differs-from-initial(lines %s)' % diff[:4])
         facts['view_changed_map'] = bool(m0 and m1 and m0['lines'] != m1['lines'])
@@ -363,6 +401,19 @@ def enumerate_scripts(tier, fd):
                 out.append(compile_script(fd, kind, cfg, seq, 'separated', VIEW, filler=False))
         out.append(compile_script(fd, 'expiry', cfg, (), 'separated', VIEW))
     parts['controls without pacing filler (depth<=1) + expiry variant (Total != Most)'] = len(out) - n0
+    # traffic arriving after the view controls were used (pan / zoom must not leak into the data)
+    n0 = len(out)
+    late_depth = 1 if tier == 'quick' else 2
+    late_seqs = [()]
+    for k in range(1, late_depth + 1):
+        late_seqs += list(itertools.product(names, repeat=k))
+    for seq in late_seqs:
+        out.append(compile_script(fd, 'aircraft-late', cfgs[0], seq, 'separated', VIEW))
+    # a long pan: ten steps north, five west
+    for seq in (('Up',) * 10 + ('Left',) * 5, ('Down',) * 6 + ('Right',) * 6):
+        if all(a in VIEW for a in seq):
+            out.append(compile_script(fd, 'aircraft-late', cfgs[0], seq, 'batched', VIEW))
+    parts['traffic after view sequences (depth<=%d + two long pans)' % late_depth] = len(out) - n0
     return out, parts
 
 
